@@ -57,6 +57,27 @@ def C05.M2MHolds (after : Live) (links : List Link) (rt atbl : Nat) (localFirst 
       (if localFirst then x.2.take pk.length = pk else x.2.drop (x.2.length - pk.length) = pk) →
       ∃ r ∈ shown, x.2 = mkLink localFirst pk r.key)
 
+/-! ## many-to-many and many-to-one (theorems in `Props/C05Rel.lean`) -/
+
+/-- does link `x` of association table `atbl` belong to the parent with key `pk`? -/
+def linkOfParent (atbl : Nat) (localFirst : Bool) (pk : List Int) (x : Link) : Bool :=
+  x.1 == atbl && (if localFirst then x.2.take pk.length == pk else x.2.drop (x.2.length - pk.length) == pk)
+
+/-- `revert_association` (uselist) at the level of rows and links -/
+def revertM2M (live : Live) (links : List Link) (rt atbl : Nat) (localFirst : Bool) (pk : List Int)
+    (shown : List (VRow Key)) : Live × List Link :=
+  (shown.foldl (fun l r => liveSet l (rt, r.key) r.vals) live,
+   links.filter (fun x => !linkOfParent atbl localFirst pk x) ++ shown.map (fun r => (atbl, mkLink localFirst pk r.key)))
+
+/-- many-to-one: the shown version, if any, is reverted -/
+def revertM2O (live : Live) (rt : Nat) (shown : Option (VRow Key)) : Live :=
+  match shown with
+  | none => live
+  | some r => liveSet live (rt, r.key) r.vals
+
+def C05.M2OHolds (after : Live) (rt : Nat) (shown : Option (VRow Key)) : Prop :=
+  ∀ r ∈ shown, liveGet after (rt, r.key) = some r.vals
+
 /-- rows of tables not involved stay as they were -/
 def C05.FrameHolds (before after : Live) (touched : List TKey) : Prop :=
   (∀ p ∈ before, p.1 ∉ touched → liveGet after p.1 = some p.2) ∧
@@ -68,6 +89,8 @@ instance c05d2 (after : Live) (ct fkIdx : Nat) (pk : List Int) (shown : List (VR
     Decidable (C05.O2MHolds after ct fkIdx pk shown) := by unfold C05.O2MHolds; infer_instance
 instance c05d3 (after : Live) (links : List Link) (rt atbl : Nat) (lf : Bool) (pk : List Int) (shown : List (VRow Key)) :
     Decidable (C05.M2MHolds after links rt atbl lf pk shown) := by unfold C05.M2MHolds; infer_instance
+instance c05d5 (after : Live) (rt : Nat) (shown : Option (VRow Key)) : Decidable (C05.M2OHolds after rt shown) := by
+  unfold C05.M2OHolds; infer_instance
 instance c05d4 (before after : Live) (touched : List TKey) : Decidable (C05.FrameHolds before after touched) := by
   unfold C05.FrameHolds; infer_instance
 
